@@ -88,11 +88,24 @@ def hist_of(h):
     return hist_of_scalar(h.prepare_for_torch().reshape(-1)[0])
 
 
+# Like the LSTM language models the library loads (pero_ocr.decoding.decoding_itf.construct_lm: embedding -> dropout -> recurrent
+# cell, dropout before the output layer), the toy LM CONTAINS DROPOUT, in the recurrent part and in the output layer, and is handed
+# to LMWrapper in training mode, as torch modules are after construction.  In evaluation mode (LMWrapper's obligation) dropout is
+# the identity and the LM is exactly the context LM above; left in training mode it draws masks from the process-wide torch RNG:
+# a consumed symbol is zeroed or doubled, a score zeroed or doubled, so the result of a page depends on everything decoded before.
+DROPOUT = 0.5
+
+
 class _WModel(torch.nn.Module):
+    def __init__(self):
+        super().__init__()
+        self.drop = torch.nn.Dropout(DROPOUT)
+
     def forward(self, xs, hs):
         h = hs.clone()
+        emb = self.drop(xs.to(h.dtype))               # "embedding" of a symbol = its number; dropout on the embedding
         for j in range(xs.shape[1]):
-            h = h * WBASE + xs[:, j].to(h.dtype).view(1, -1, 1)
+            h = h * WBASE + emb[:, j].view(1, -1, 1)
         return None, h
 
     def init_hidden(self, bsz):
@@ -103,13 +116,14 @@ class _WOut(torch.nn.Module):
     def __init__(self, nc):
         super().__init__()
         self.nc = nc
+        self.drop = torch.nn.Dropout(DROPOUT)
 
     def forward(self, hs):
         rows = []
         for x in hs.reshape(-1).tolist():
             hh = hist_hash(hist_of_scalar(x))
             rows.append([0.0] + [np.log(3.0) if (hh + c) % 2 == 0 else 0.0 for c in range(self.nc)])
-        return torch.tensor(rows, dtype=torch.float64)
+        return self.drop(torch.tensor(rows, dtype=torch.float64))
 
 
 class _WLm(torch.nn.Module):        # module-level classes: parse_folder --process-count 2 pickles the page parser
@@ -124,7 +138,9 @@ class _WLm(torch.nn.Module):        # module-level classes: parse_folder --proce
 
 def make_wrapped_context_lm(nc):
     from pero_ocr.decoding.lm_wrapper import LMWrapper
-    return LMWrapper(_WLm(nc), [chr(97 + i) for i in range(nc)], torch.device("cpu"))
+    lm = _WLm(nc)
+    lm.train()          # the state a freshly constructed / loaded torch model is in; evaluation mode is the wrapper's business
+    return LMWrapper(lm, [chr(97 + i) for i in range(nc)], torch.device("cpu"))
 
 
 def flavour_of(cfgid):
